@@ -1,4 +1,6 @@
 """C02 - Fq and Fr arithmetic is exact modular arithmetic with canonical results."""
+import ctypes
+
 from hypothesis import strategies as st
 
 from .. import conv, gens
@@ -254,15 +256,34 @@ def check_unary(ctx, lib, c):
     nontriv = a in (0, 1, p - 1, R, (p - R) % p)
     if op == "inv":
         name = "fq_inv"
-        if fld == "fq":
-            rv, out = lib.op("fq_inv", A)
-        else:
-            rv, out = lib.call(f["misc"], nb, 10, "O", A, 0)
+
+        def inv(img, inplace=False):
+            if fld == "fq":
+                return lib.op("fq_inv", img, alias="a" if inplace else None)[1]
+            if not inplace:
+                return lib.call(f["misc"], nb, 10, "O", img, 0)[1]
+            fn = lib.fn(f["misc"], ctypes.c_long)
+            lib.A.write_operand(img)
+            fn(ctypes.c_long(10), lib.A.ptr, lib.A.ptr, ctypes.c_long(0))
+            return lib.A.read(nb)
+        first_inplace = bool((a >> 5) & 1)      # (a function of the case)
+        out = inv(A, first_inplace)
         got = conv.ib(out)
         exp = (pow(val, -1, p) * R % p) if val else 0
         nontriv = nontriv or val in (0, 1, p - 1, 2, (p + 1) // 2)
-        ctx.count(c, nontriv, "%s-inv" % fld)
-        expect(got < p and got == exp, sig + "/value", lambda: "a=%x got=%x expected=%x" % (a, got, exp))
+        ctx.count(c, nontriv, "%s-inv" % fld + ("-inplace" if first_inplace else ""))
+        expect(got < p and got == exp, sig + ("/inplace" if first_inplace else "/value"), lambda: "a=%x got=%x expected=%x" % (a, got, exp))
+        # related calls directly afterwards: the inversion of that result (must give a back), the inversion of -a in place and of its
+        # result, and the first inversion again. Inversion is a function of its argument, whatever was inverted before.
+        r2 = conv.ib(inv(out, bool((a >> 6) & 1)))
+        expect(r2 == (a if val else 0), sig + "/after-related-call/inverse-of-result", lambda: "a=%x: inverse(inverse(a)) = %x" % (a, r2))
+        na = (p - a) % p
+        o3 = inv(conv.bi(na, bits), not first_inplace)
+        expect(conv.ib(o3) == (p - exp) % p, sig + "/after-related-call/negated", lambda: "a=%x: inverse(-a) after inverse(a) = %x" % (a, conv.ib(o3)))
+        r4 = conv.ib(inv(o3))
+        expect(r4 == (na if val else 0), sig + "/after-related-call/inverse-of-result", lambda: "a=%x: inverse(inverse(-a)) = %x" % (a, r4))
+        r5 = conv.ib(inv(A))
+        expect(r5 == exp, sig + "/after-related-call/repeat", lambda: "a=%x: inverse(a) again = %x" % (a, r5))
     elif op == "set":
         rv, out = lib.op("%s_set" % fld, A)
         got = conv.ib(out)
@@ -279,6 +300,12 @@ def check_unary(ctx, lib, c):
         exp = 0 if val == 0 else (1 if pow(val, (p - 1) // 2, p) == 1 else -1)
         ctx.count(c, nontriv or exp == 0, "%s-legendre:%d" % (fld, exp))
         expect(rv == exp, sig + "/value", lambda: "raw=%x got=%d expected=%d" % (a, rv, exp))
+        # the symbol is a function of the argument: zero twice, then the same argument again
+        for _ in range(2):
+            rz, _o = lib.call(f["misc"], 0, 1, "O", conv.bi(0, bits), 0)
+            expect(rz == 0, sig + "/after-related-call/zero", lambda: "legendre(0) = %d after legendre(%x)" % (rz, a))
+        ra, _o = lib.call(f["misc"], 0, 1, "O", A, 0)
+        expect(ra == exp, sig + "/after-related-call/repeat", lambda: "raw=%x: %d, then %d after two legendre(0)" % (a, exp, ra))
     elif op == "sqrt":
         s = val * val % p
         S = conv.bi(s * R % p, bits)
